@@ -239,6 +239,16 @@ func (r *Run) do(op Op) {
 		rec.AbsH = h0
 	case "flood":
 		rec.Returned = h.Flood(op.N)
+		if !rec.Returned {
+			// one message was not taken within 5 s. A main loop that is BLOCKED stays blocked; one that is merely starved (busy
+			// machine, race detector) takes messages again: probe for up to 40 s before calling it blocked
+			for until := time.Now().Add(40 * time.Second); time.Now().Before(until); {
+				if h.Flood(1) {
+					rec.Returned, rec.Inconclusive = true, true
+					break
+				}
+			}
+		}
 	case "release":
 		rec.Forwarded = h.Gates.Release()
 	case "settle":
